@@ -178,7 +178,7 @@ func (c *fctx) nilOf(t types.Type, pos token.Pos) string {
 		return "([] : " + c.x.leanType(t, false) + ")"
 	case kError:
 		return "(none : GoErr)"
-	case kPtrStruct:
+	case kPtrStruct, kRef:
 		return "none"
 	}
 	bad("nil of type %s at %s", t.String(), c.site(pos))
@@ -314,11 +314,15 @@ func (c *fctx) binary(t *ast.BinaryExpr) string {
 	switch t.Op {
 	case token.LAND, token.LOR:
 		a, b := c.expr(t.X), c.expr(t.Y)
-		if failing(b) { // keep Go's short-circuit: the right operand may panic
-			if t.Op == token.LAND {
-				return fmt.Sprintf("(← (do if %s then pure %s else pure false : R Bool))", a, b)
+		if failing(b) { // keep Go's short-circuit: the right operand may panic (or act on the world)
+			m := "R Bool"
+			if c.fi.effectful {
+				m = "StateT σ R Bool"
 			}
-			return fmt.Sprintf("(← (do if %s then pure true else pure %s : R Bool))", a, b)
+			if t.Op == token.LAND {
+				return fmt.Sprintf("(← (do if %s then pure %s else pure false : %s))", a, b, m)
+			}
+			return fmt.Sprintf("(← (do if %s then pure true else pure %s : %s))", a, b, m)
 		}
 		if t.Op == token.LAND {
 			return "(" + a + " && " + b + ")"
@@ -334,7 +338,7 @@ func (c *fctx) binary(t *ast.BinaryExpr) string {
 			switch c.x.kindOf(c.typeOf(o)) {
 			case kBytes, kList:
 				s = c.expr(o) + ".isEmpty"
-			case kError:
+			case kError, kRef:
 				s = c.expr(o) + ".isNone"
 			default:
 				bad("nil comparison of %s at %s", c.typeOf(o).String(), c.site(t.Pos()))
@@ -346,6 +350,11 @@ func (c *fctx) binary(t *ast.BinaryExpr) string {
 		}
 		switch c.x.kindOf(c.typeOf(t.X)) {
 		case kBool, kU8, kU16, kU32, kU64, kInt, kBytes:
+		case kRef: // pointer identity
+			if t.Op == token.EQL {
+				return "(Go.refEq " + c.expr(t.X) + " " + c.expr(t.Y) + ")"
+			}
+			return "(!(Go.refEq " + c.expr(t.X) + " " + c.expr(t.Y) + "))"
 		default:
 			bad("comparison of %s at %s", c.typeOf(t.X).String(), c.site(t.Pos()))
 		}
